@@ -1,12 +1,22 @@
 #!/bin/bash
-# usage: mut.sh <patch> <ID>... ; applies a seeded change to /repo, rebuilds, runs the quick checks, reverts
+# usage: mut.sh <patch> <ID>... ; applies a seeded change to /repo, rebuilds the harness, runs the
+# quick check(s) (and the thorough tier when quick stays silent and ESCALATE=1), reverts /repo.
+# NOTE: the harness binary stays built from the changed tree afterwards - rebuild with ./cb.
 p=$1; shift
 git -C /repo apply "$p" || { echo "patch does not apply"; exit 9; }
 trap 'git -C /repo checkout -- . ; echo reverted' EXIT
 cd /verif/harness && ./cb 5 >/dev/null 2>&1 || { echo "BUILD FAILED"; ./cb 30; exit 8; }
+mkdir -p /tmp/mutrun && cp /verif/known_findings.json /tmp/mutrun/ && ln -sfn /verif/harness-sched /tmp/mutrun/harness-sched
 for id in "$@"; do
-  tier=${TIER:-quick}
-  FV_VERIF=/tmp/mutrun /verif/harness/target/release/fv $id --tier $tier --seed ${SEED:-1} > /tmp/mut_$id.out 2>&1
-  echo "== $id rc=$? $(grep -c '^VIOLATION' /tmp/mut_$id.out) violation lines"
-  grep '^VIOLATION\|^INCONCLUSIVE\|^HELD' /tmp/mut_$id.out | cut -c1-160 | head -${LINES_MAX:-4}
+  for tier in quick thorough; do
+    rm -rf /tmp/mutrun/replays
+    s=$(date +%s)
+    FV_VERIF=/tmp/mutrun timeout 3600 /verif/harness/target/release/fv $id --tier $tier --seed ${SEED:-1} > /tmp/mut_${id}_$tier.out 2>&1
+    rc=$?
+    n=$(grep -c '^VIOLATION' /tmp/mut_${id}_$tier.out)
+    echo "RESULT patch=$(basename $(dirname $p))/$(basename $p) check=$id tier=$tier rc=$rc violations=$n secs=$(( $(date +%s)-s ))"
+    grep '^VIOLATION' /tmp/mut_${id}_$tier.out | sed 's/replay=[^ ]* //' | cut -c1-200 | head -${LINES_MAX:-3}
+    [ $rc -ne 0 ] && break
+    [ "${ESCALATE:-1}" = 1 ] || break
+  done
 done
